@@ -13,6 +13,7 @@ exported alone in a pristine forked child.
 """
 
 import copy
+import sys
 import datetime
 import errno
 
@@ -420,6 +421,7 @@ def _do_export(tl, spec, fs, op):
 
 def _run(plan):
     seams.silence_stdio()
+    sys.setrecursionlimit(3000)  # the harness's own frames must never decide whether the solver's recursion fits
     clock = seams.SimClock(plan["clock"]["start"], plan["clock"]["tick_s"])
     seams.install_clock(clock)
     fs = seams.MemFS()
@@ -684,6 +686,7 @@ def _reference(job):
     """Pristine child: the same spec, alone: construct, then the one export."""
     if not job.get("keep_stdout"):
         seams.silence_stdio()
+    sys.setrecursionlimit(3000)
     clock = seams.SimClock(replay=job["readings"])
     seams.install_clock(clock)
     fs = seams.MemFS()
